@@ -12,3 +12,59 @@ Print Assumptions C09_roundtrip.
 Theorem C09_shallow_refuted : exists e v, wf_env e v = true /\ no_reserved v = true /\ deser DShallow e (ser v) <> Some v.
 Proof. exact deser_shallow_refuted. Qed.
 Print Assumptions C09_shallow_refuted.
+
+(* ---- the listing itself (Lab.cached_tasks over BaseCache.load_task / load_metadata, Model/Listing.v) *)
+Require Import LT.Model.Listing LT.Proofs.ListingProofs.
+
+(* Over a storage that holds what save wrote for any collection of tasks of any mix of types and cache formats (names
+   that are prefixes of each other, the same qualified name under different KEY_PREFIXes, ...), cached_tasks(types)
+   returns exactly the stored tasks whose class is one of the requested types: in storage order, each exactly once
+   (however often a type is repeated in the request), the task structurally identical to the one stored, with the
+   stored result_meta; it never raises.  Hypotheses: the stored tasks are well-formed values without reserved dict keys
+   (known finding D9 otherwise), and a class has one cache configuration. *)
+Theorem C09_listing_exact : forall e dumps H tys (items : list item),
+  (forall it, In it items -> wf_item e it) ->
+  (forall ty it, In ty tys -> In it items -> tt_cls ty = tt_cls (it_ty it) -> ty = it_ty it) ->
+  cached_tasks deser_mode_src e tys (map (fun it => save_entry dumps H (it_ty it) (it_task it) (it_meta it)) items) =
+  Some (map (fun it => (it_task it, it_meta it)) (filter (wanted tys) items)).
+Proof. exact listing_exact. Qed.
+Print Assumptions C09_listing_exact.
+
+(* ... and the listed task has the cache_key of the entry it was read from (the key is a function of the task). *)
+Theorem C09_listed_key : forall dumps H (it : item), (exists fs, it_task it = VTask (tt_cls (it_ty it)) fs) ->
+  en_key (save_entry dumps H (it_ty it) (it_task it) (it_meta it)) = cache_key dumps H (tt_prefix (it_ty it)) (it_task it).
+Proof. exact listed_key. Qed.
+Print Assumptions C09_listed_key.
+
+(* Whatever else the storage holds: an entry written by another cache class is never listed, every listed task is an
+   instance of a requested type rebuilt from an entry of that type's cache class whose key starts with prefix+qualname,
+   and an entry contributes at most one task. *)
+Theorem C09_other_format_not_listed : forall mode e ty en t m,
+  en_cache en <> Some (tt_cache ty) -> load_task mode e ty en <> Found t m.
+Proof. exact other_format_not_listed. Qed.
+Print Assumptions C09_other_format_not_listed.
+
+Theorem C09_listing_at_most_once : forall mode e tys store l, cached_tasks mode e tys store = Some l ->
+  exists picks : list bool, length picks = length store /\ length l = length (filter (fun b => b) picks) /\
+    forall t m, In (t, m) l -> exists en ty, In en store /\ In ty tys /\ load_task mode e ty en = Found t m.
+Proof. exact listing_at_most_once. Qed.
+Print Assumptions C09_listing_at_most_once.
+
+(* non-vacuity: types V, VV (V's name is a prefix of VV's) and VJ (another cache class, another prefix) in one storage *)
+Require Import String.
+Open Scope string_scope.
+Example listing_prefix_names :
+  let e := {| task_classes := [(s2l "m.V", [s2l "x"]); (s2l "m.VV", [s2l "x"]); (s2l "m.VJ", [s2l "x"])]; enum_classes := [] |} in
+  let tV := {| tt_cls := s2l "m.V"; tt_prefix := []; tt_cache := s2l "PickleCache" |} in
+  let tVV := {| tt_cls := s2l "m.VV"; tt_prefix := []; tt_cache := s2l "PickleCache" |} in
+  let tVJ := {| tt_cls := s2l "m.VJ"; tt_prefix := s2l "json__"; tt_cache := s2l "JsonCache" |} in
+  let mk := fun c (n : Z) => VTask (s2l c) [(s2l "x", VScal (SInt n))] in
+  let items : list item := [(tVV, mk "m.VV" 1%Z, 10); (tV, mk "m.V" 2%Z, 11); (tVJ, mk "m.VJ" 3%Z, 12); (tV, mk "m.V" 4%Z, 13)] in
+  let store := map (fun it => save_entry (fun _ => []) (fun s => s) (it_ty it) (it_task it) (it_meta it)) items in
+  cached_tasks deser_mode_src e [tV; tV] store = Some [(mk "m.V" 2%Z, 11); (mk "m.V" 4%Z, 13)] /\
+  cached_tasks deser_mode_src e [tVV; tVJ] store = Some [(mk "m.VV" 1%Z, 10); (mk "m.VJ" 3%Z, 12)] /\
+  (forall it, In it items -> wf_item e it).
+Proof.
+  cbv zeta. split; [vm_compute; reflexivity|]. split; [vm_compute; reflexivity|].
+  intros it [<-|[<-|[<-|[<-|[]]]]]; (split; [eexists; reflexivity|split; vm_compute; reflexivity]).
+Qed.
